@@ -198,3 +198,14 @@ Proof.
   destruct (R_run c d atasks sched) as [A [B _]].
   split; [exact A|]. split; [exact B|]. apply adone_all_done.
 Qed.
+
+(* the rendered `modules` stats fields after adaptive walks = the function of the configuration that C13/Sched.v specifies,
+   taken at the selected paths *)
+Lemma adaptive_render_modules {F} (c : config) (d : F) (atasks : list (@atask F)) sched mods :
+  leaf_injective (fixed c atasks) ->
+  aall_done (length atasks) (arun c d atasks sched) = true ->
+  map (fun k => module_fields (stats (ash (arun c d atasks sched)) (leaf c k))) mods = modules_spec (fixed c atasks) mods.
+Proof.
+  intros HL H. rewrite (adone_all_done c d atasks) in H. rewrite ash_is_fixed_run.
+  rewrite <- (render_modules_spec (fixed c atasks) sched mods HL H). reflexivity.
+Qed.
